@@ -61,6 +61,7 @@ GROUPS = {
     'globenv': ['vcell', 'globenv'],
     'vector': ['vector'],
     'lexenv': ['lexenv'],
+    'trace': ['vcell', 'stack', 'trace'],
     'gcroots': ['vcell', 'stack', 'globenv', 'heap_model', 'vm_struct', 'continuation', 'run_gc'],
     'cont': ['vcell', 'stack', 'vm_struct', 'continuation', 'builtin_mod', 'builtin_procedure'],
     'builtins': ['vcell', 'stack', 'vm_struct', 'builtin_mod', 'builtin_vector', 'builtin_list'],
